@@ -349,6 +349,19 @@ def r2_taint(P, rep, ctx):
     others = [n.idx for n in g.nodes if n.kind in ("stmt", "test") and n.idx not in guards]
     rep.check(bool(guards) and all(g.every_path_passes(guards, o) for o in others), "C08.R2", fi.qual, "__contains__ guards the name before anything else", fi.loc(),
               construct="__contains__ guard", message="MetadorGroup.__contains__ inspects the container before (or without) _guard_path(name)")
+    # link-typed values would make a harmless name an alias of a reserved node: refused before the raw store
+    si = P.func(f"{W}.MetadorGroup.__setitem__")
+    m = P.module(W)
+    rt = m.assigns.get("_H5_REF_TYPES")
+    kinds = {norm(e) for e in rt.elts} if isinstance(rt, (ast.List, ast.Tuple)) else set()
+    need = {"h5py.HardLink", "h5py.SoftLink", "h5py.ExternalLink"}
+    rep.check(need <= kinds, "C08.R2", si.qual, "hard / soft / external link values are on the refusal list", m.relpath, construct=f"_H5_REF_TYPES={sorted(kinds)}",
+              message=f"_H5_REF_TYPES lost {sorted(need - kinds)}: a link object stored under a harmless name aliases a reserved metador_* node and bypasses the path guard")
+    g = ctx.cfg(si)
+    tests = [t for t in g.nodes if t.kind == "test" and "_H5_REF_TYPES" in norm(t.exprs[0]) and "isinstance(value" in norm(t.exprs[0])]
+    stores = [n.idx for n in g.nodes if any(isinstance(c.func, ast.Call) for c in g.calls(n.idx))] + [n for n, c, mut in _raw_call_nodes(g)]
+    ok = bool(tests) and all(g.exit not in g.reach([b for b, l in g.succ[t.idx] if l == "T"]) for t in tests) and all(g.every_path_passes([t.idx for t in tests], s) for s in stores)
+    rep.check(ok, "C08.R2", si.qual, "link-typed values are refused before anything is stored", si.loc(), construct="link refusal in __setitem__", message="MetadorGroup.__setitem__ stores link/reference values (or checks them after the store)")
     # the guard itself
     fi = P.func(f"{W}.MetadorNode._guard_path")
     g = ctx.cfg(fi)
@@ -441,6 +454,26 @@ def r4_predicates(P, rep, ctx):
         ok = rel and abs_
     rep.check(ok, "C08.R4", fi.qual, "is_internal_path tests the relative first segment and every '/'-prefixed segment with the same prefix", fi.loc(), construct="is_internal_path body",
               message="is_internal_path does not test both `path.startswith(pref)` and the '/'+pref form: some reserved paths pass the guard")
+    # bookkeeping paths are recognised through the predicates only: no ad-hoc substring / prefix tests on the constants
+    n_use = 0
+    for f in P.functions.values():
+        if f.module.name not in ("container.interface", "container.wrappers"):
+            continue
+        for x in walk_local(f.node):
+            bad = None
+            if isinstance(x, ast.Compare) and any(isinstance(o, (ast.In, ast.NotIn)) for o in x.ops) and norm(x.left) in ("M.METADOR_PREF", "M.METADOR_META_PREF"):
+                bad = x
+            if isinstance(x, ast.Call) and call_attr(x) in ("startswith", "endswith", "find", "index", "count") and x.args and norm(x.args[0]) in ("M.METADOR_PREF", "M.METADOR_META_PREF"):
+                bad = x
+            if isinstance(x, ast.Call) and norm(x.func) in ("M.is_internal_path", "M.is_meta_base_path"):
+                n_use += 1
+            if bad is not None:
+                rep.fail("C08.R4", f.qual, norm(bad)[:100], f"`{norm(bad)[:80]}` classifies a path with a substring/prefix test on the reserved prefix instead of the segment-aware predicates of container/utils.py: user names that merely contain the prefix are treated as bookkeeping", f.loc(bad))
+    rep.check(n_use >= 5, "C08.R4", "container", f"bookkeeping paths are classified through is_internal_path / is_meta_base_path ({n_use} uses)", P.module("container.interface").relpath, construct="predicate uses", message="the container code no longer uses the path predicates")
+    fm = P.func("container.interface.TOCLinks.find_missing")
+    cm = fm.nested.get("collect_missing")
+    t = norm(cm.node) if cm else ""
+    rep.check("if not M.is_internal_path(node.name, M.METADOR_META_PREF): return" in t.replace("\n", " "), "C08.R4", fm.qual, "metadata objects are identified by the segment-prefix predicate with the metadata prefix", fm.loc(), construct="find_missing filter", message="find_missing does not identify metadata nodes with is_internal_path(node.name, METADOR_META_PREF)")
     fi = P.func(f"{U}.to_meta_base_path")
     n = 0
     for st in walk_local(fi.node):
